@@ -107,9 +107,12 @@ func VerifC17Init() {
 
 // VerifC17Failover5 is the thorough variant.
 //
-//verif:harness name=H17a-failover5 tier=thorough bounds="as H17a-failover2 with 4 steps, with or without the start-up probe"  reach=done,backoff-skip,failover,servfail-path,recovered,no-fallbacks maxpaths=8000000
+//verif:harness name=H17a-failover5 tier=thorough bounds="as H17a-failover with 4 steps, with or without the start-up probe"  reach=done,backoff-skip,failover,servfail-path,recovered,no-fallbacks maxpaths=8000000
 //verif:assume clock readings non-decreasing in [2^41, 2^62), backoff in (0, 2^40]; the pick among active upstreams / fallbacks is an explored choice
-func VerifC17Failover5() { verifC17Failover(4, verifChoice(2) == 1) }
+func VerifC17Failover5() {
+	verifOuts = []int{verifOutOK, verifOutServfail, verifOutNetErr, verifOutOther}
+	verifC17Failover(4, verifChoice(2) == 1)
+}
 
 func verifC17Failover(steps int, initProbe bool) {
 	mains := []*verifUps{{name: "m0"}, {name: "m1"}}
